@@ -1,19 +1,25 @@
 (** C11 — a request runs exactly the method it names.
 
     Executable model of Spyne's method registry and request routing
-    (repaired tree = /repo + proposed_fixes/C11-*.patch):
+    (repaired tree = /repo + proposed_fixes/C11-0001..0005):
 
       spyne/decorator.py       rpc.explain_method: _operation_name/_in_message_name/_out_message_name,
                                "{ns}name" partition, descriptor name (MethodDescriptor.__init__),
-                               HttpPattern.hello
+                               HttpPattern.hello (fix 3: the default address is a literal)
       spyne/service.py         ServiceMeta.__init__ (primary/auxiliary mix check)
       spyne/descriptor.py      internal_key, gen_interface_key
       spyne/application.py     check_unique_method_keys, Application.__init__ order of the phases
       spyne/interface/_base.py populate_interface (class phase: has_class/add_class name collision;
-                               route phase: process_method)
+                               route phase: process_method; fix 1: insert(0, method), fix 2: ValueError
+                               for a taken method_id_map key)
       spyne/protocol/_base.py  get_call_handles, generate_method_contexts
-      spyne/protocol/xml.py, soap11.py, dictdoc/_base.py, msgpack.py, server/wsgi.py, server/http.py
-                               how each protocol derives ctx.method_request_string; match_pattern
+      spyne/protocol/xml.py, soap11.py, dictdoc/_base.py, msgpack.py, server/wsgi.py
+                               how each protocol derives ctx.method_request_string
+      spyne/server/http.py     HttpBase.__init__ (fix 4: the same pattern on two methods is refused;
+                               fix 5: total sort key) and match_pattern
+
+    The tokens of these functions that decide the routing are extracted from the working tree by
+    harness/translate/routekeys.py and proved to agree with this file in C11/SourceTie.v.
 
     Definitions only. *)
 From SpyneV Require Export Base.Prelude.
